@@ -43,6 +43,16 @@ MinPoly(u, f0, l) ==
   LET seq == FoldLeft(LAMBDA acc, i : <<Append(acc[1], PBit(acc[2], 0)), PMulMod(acc[2], u, f0)>>,
                       <<<<>>, POne>>, PRng(1, 2 * l))[1]
   IN PMinPolySeq(seq)
+\* one candidate u (len octets) of bels-genmi / genmid: accepted iff its minimal polynomial has degree l and differs from f0
+TryCand(u, m0) ==
+  LET len == Len(m0)  l == 8 * len  f0 == KeyPoly(m0)
+      f == MinPoly(PMod(OctToPoly(u), f0), f0, l)
+  IN IF PDeg(f) = l /\ ~PEq(f, f0) THEN <<TRUE, PolyToOct(PAdd(f, PMonomial(l)), len)>> ELSE <<FALSE, <<>>>>
+\* bels-genmi as implemented per call: up to three candidates are drawn from the generator (tape = 3 len octets)
+GenMi(m0, tape) ==
+  LET len == Len(m0)
+      c(i) == TryCand(Sub(tape, (i - 1) * len + 1, i * len), m0)
+  IN IF c(1)[1] THEN c(1) ELSE IF c(2)[1] THEN c(2) ELSE c(3)
 \* integer increment of a little-endian octet string
 GenMid(m0, id) ==
   LET len == Len(m0)  l == 8 * len  f0 == KeyPoly(m0)
